@@ -95,7 +95,7 @@ SESSION2 = {
     'C03': 'E6e evaluation of evaluate_expression on every ordered pair of 14 sample operands of every value type x 6 arithmetic operators and unary - / ! against the language definition (C03.T), undefined callee with effectful arguments; shared evaluations: value_string on numbers (C13), datetime arithmetic / ISO text under fixed-offset zones (C16, E6d), relational operators on 32x32 concrete values (C11.S)',
     'C04': 'shared rule C01.P (E9r whole-program evaluation: locals / globals, parameter binding, functions as values, a local hiding a global in call position, tabs in parameter lists); execute_script evaluated on an empty script with caller globals binding a library name to a host function / to null (C04.I); parse_script evaluated on layout variants of function headers (C10.L, E6p)',
     'C05': 'shared evaluations C03.T (operator table on all operand type pairs: no host exception) and C17.U (url helpers); escape analysis extended by implicit __str__/__repr__ calls when a caught exception is formatted and by with-statements (contextlib.suppress decided, swallowing context managers undecided); dataParseCSV evaluated on ragged texts with csv.reader / DictReader as exact host models (C05.K)',
-    'C06': 'shared C10.L literal program (line-separator-like characters, tabs and blank runs inside strings): error line / column of a fault placed after them; BareScriptParserError.__init__ evaluated on lines of 0..400 characters (incl. blanks at the ends) with the fault at every column: stored attributes and caret position in the formatted message (C06.A); blank continuation parts join to concrete text (lone backslash at end of input)',
+    'C06': 'rule C06.Q (E6p): parse_script and parse_expression evaluated on programs with one faulty expression in every statement form (x prepended lines, start line number, extra indentation), with deleted closing keywords and final continuation backslashes: BareScriptParserError with the exact line text and 1-based number and a column inside the faulty expression that moves by exactly the prepended amount; shared C10.L literal program (line-separator-like characters, tabs and blank runs inside strings): error line / column of a fault placed after them; BareScriptParserError.__init__ evaluated on lines of 0..400 characters (incl. blanks at the ends) with the fault at every column: stored attributes and caret position in the formatted message (C06.A); blank continuation parts join to concrete text (lone backslash at end of input)',
     'C07': 'rules C07.S/T concrete clause: parse_script evaluated (E6p) on programs with numeric / string literal conditions, branches that all end in break / continue / return and functions inside open blocks, expression models built by the independent front-end, result validated against the schema text and each scope\'s label / jump sets; shared evaluations: parse_script on layout variants (C10.L, E6p) and lint_script on lowered structured code and on the shipped includes (C18.R, E6n): no label warning',
     'C09': 'rule C09.B (E9r): whole programs with script functions invoked directly, recursively, through variables / systemPartial and as callbacks of arraySort / arrayIndexOf evaluated unlimited (N statements) and under the limits 1..N+2 and 0 - exact abort point L + 1, log prefix, reproduction for L >= N, N at least the statements of the structured reading, one options object reused after a completed / failed / aborted run; E6s evaluation of the statement loop on 31028 small models under a limit (counts compared; shared C08.E) and of 21 include scenarios incl. the limit hit inside an included script; filter_data / add_calculated_field / join_data evaluated with a counting expression oracle, completing and aborted by the limit (run\'s options carry start + evaluations); handler fate analysis (conditional re-raise); the D / W / R read-backs are advisory for loop helpers once the evaluation decides',
     'C10': 'E6p (sa/parsesim.py): parse_script evaluated on concrete text - 686 (quick) layout variants of two programs covering every statement form, generated from the language definition (sa/barefront.py): blanks added / removed wherever allowed, tabs, CRLF, chunkings, blank / comment lines at every position, continuation at every blank incl. across chunks - each must give the model of the canonical layout (C10.L)',
